@@ -3,6 +3,8 @@ import Jose.Driver.IO
 import Jose.Crypto.Hmac
 import Jose.Crypto.Ec
 import Jose.Crypto.Rsa
+import Jose.Crypto.Modes
+import Jose.Crypto.Inflate
 namespace Jose.Driver
 open Jose Jose.Crypto
 
@@ -69,9 +71,81 @@ def rsaSignReal (pss : Bool) (h : String) (n d msg rnd : Bs) : Option Bs :=
       (rsaPssSign a (natOfBs n) (natOfBs d) (natsToBA msg) salt).map baToNats
     else (rsaPkcs1v15Sign a (natOfBs n) (natOfBs d) (natsToBA msg)).map baToNats
 
+def ecGenReal (crv : String) (rnd : Bs) : Option (Bs × Bs × Bs) :=
+  match curveOfName crv with
+  | none => none
+  | some c =>
+    let d := natOfBs rnd % (c.n - 1) + 1
+    match publicOf c d with
+    | some (.affine x y) => some (fixedWidth d c.len, fixedWidth x c.len, fixedWidth y c.len)
+    | _ => none
+
+def ecdhReal (crv : String) (d x y : Bs) : Option (Bs × Bs) :=
+  match curveOfName crv with
+  | none => none
+  | some c =>
+    match Point.mul c (natOfBs d) (.affine (natOfBs x % c.p) (natOfBs y % c.p)) with
+    | .affine zx zy => some (fixedWidth zx c.len, fixedWidth zy c.len)
+    | .inf => none
+
+def ecAddReal (crv : String) (x1 y1 x2 y2 : Bs) (negSecond : Bool) : Option (Bs × Bs) :=
+  match curveOfName crv with
+  | none => none
+  | some c =>
+    let p1 : Point := .affine (natOfBs x1 % c.p) (natOfBs y1 % c.p)
+    let p2 : Point := .affine (natOfBs x2 % c.p) (natOfBs y2 % c.p)
+    match Point.add c p1 (if negSecond then Point.neg c p2 else p2) with
+    | .affine zx zy => some (fixedWidth zx c.len, fixedWidth zy c.len)
+    | .inf => none
+
+def gcmEncReal (key iv aad pt : Bs) : Bs × Bs :=
+  let (c, t) := aesGcmEncrypt (natsToBA key) (natsToBA iv) (natsToBA aad) (natsToBA pt)
+  (baToNats c, baToNats t)
+
+def gcmDecReal (key iv aad ct tag : Bs) : Option Bs :=
+  (aesGcmDecrypt (natsToBA key) (natsToBA iv) (natsToBA aad) (natsToBA ct) (natsToBA tag)).map baToNats
+
+def rsaEncReal (oaep : Option String) (n e msg rnd : Bs) : Option Bs :=
+  match oaep with
+  | some h =>
+    (hashAlgOfName h).bind fun a =>
+      let seed := (Crypto.hash .sha512 (natsToBA rnd) ++ Crypto.hash .sha512 (natsToBA (0 :: rnd))).extract 0 a.size
+      (rsaOaepEncrypt a (natOfBs n) (natOfBs e) (natsToBA msg) seed).map baToNats
+  | none =>
+    let k := (natOfBs n).byteLen
+    let psLen := k - 3 - msg.length
+    -- non-zero padding bytes derived from the randomness
+    let stream := (List.range (psLen / 32 + 1)).flatMap (fun i => baToNats (Crypto.hash .sha256 (natsToBA (i :: rnd))))
+    let ps := (stream.take psLen).map (fun b => if b = 0 then 1 else b)
+    (rsaPkcs1v15Encrypt (natOfBs n) (natOfBs e) (natsToBA msg) (natsToBA ps)).map baToNats
+
+def rsaDecReal (oaep : Option String) (n d ct : Bs) : Option Bs :=
+  match oaep with
+  | some h => (hashAlgOfName h).bind fun a => (rsaOaepDecrypt a (natOfBs n) (natOfBs d) (natsToBA ct)).map baToNats
+  | none => (rsaPkcs1v15Decrypt (natOfBs n) (natOfBs d) (natsToBA ct)).map baToNats
+
+def pbkdf2Real (h : String) (pw salt : Bs) (iter : Int) (dkLen : Nat) : Option Bs :=
+  if iter < 1 then none
+  else (hashAlgOfName h).map fun a => baToNats (Crypto.pbkdf2 a (natsToBA pw) (natsToBA salt) iter.toNat dkLen)
+
+def inflateReal (x : Bs) : Option Bs :=
+  let r := Crypto.inflateRaw (64 * 1024 * 1024) (natsToBA x)
+  match r.status with
+  | .ok => if r.consumed == x.length then some (baToNats r.out) else none
+  | .truncated => some (baToNats r.out)
+  | _ => none
+
 /-- the executable instance of the abstract primitives -/
 def realPrims : Prims :=
   { hash := hashByName, hmac := hmacByName, ecValid := ecValidReal, ecdsaVerify := ecdsaVerifyReal,
-    ecdsaSign := ecdsaSignReal, rsaVerify := rsaVerifyReal, rsaSign := rsaSignReal }
+    ecdsaSign := ecdsaSignReal, rsaVerify := rsaVerifyReal, rsaSign := rsaSignReal,
+    ecGen := ecGenReal, ecdh := ecdhReal, ecAdd := ecAddReal,
+    gcmEnc := gcmEncReal, gcmDec := gcmDecReal,
+    cbcEnc := fun k iv pt => baToNats (aesCbcEncrypt (natsToBA k) (natsToBA iv) (natsToBA pt)),
+    cbcDec := fun k iv ct => (aesCbcDecrypt (natsToBA k) (natsToBA iv) (natsToBA ct)).map baToNats,
+    kwWrap := fun k pt => (aesKwWrap (natsToBA k) (natsToBA pt)).map baToNats,
+    kwUnwrap := fun k ct => (aesKwUnwrap (natsToBA k) (natsToBA ct)).map baToNats,
+    rsaEnc := rsaEncReal, rsaDec := rsaDecReal, pbkdf2 := pbkdf2Real,
+    deflate := fun x => baToNats (Crypto.deflateStored (natsToBA x)), inflate := inflateReal }
 
 end Jose.Driver
